@@ -27,7 +27,55 @@ pub fn hook(gn: &mut Gen, w: &mut World) -> Option<Step> {
             let mode = gn.rng().below(5) as u8;
             let others: Vec<EvRef> = w.ledger.iter().filter(|l| l.g == g && l.author != node).map(|l| l.origin).collect();
             let vm = if others.is_empty() { None } else { Some(others[gn.rng().below(others.len() as u64) as usize]) };
-            let victim = vm.and_then(|r| w.ledger.iter().find(|l| l.origin == r)).map(|l| l.author).unwrap_or(victim);
+            let mut victim = vm.and_then(|r| w.ledger.iter().find(|l| l.origin == r)).map(|l| l.author).unwrap_or(victim);
+            if mode == 0 && gn.rng().chance(1, 2) {
+                // a name that is not in the group yet: someone who may join later (and may be
+                // given the forger's leaf once the forger is gone)
+                let members = w.members_of(node, g);
+                let future: Vec<usize> = (0..n_nodes).filter(|n| !members.contains(n) && !w.nodes[*n].key_packages.is_empty()).collect();
+                if !future.is_empty() {
+                    victim = future[gn.rng().below(future.len() as u64) as usize];
+                    // and the relay is slow with this event
+                    let until = gn.emitted + 6 + gn.rng().below(24) as usize;
+                    gn.hold_until.insert(EvRef(w.peek_step_id(), 0), until);
+                    w.probe("forged_rumor_in_the_name_of_a_future_member_held_back");
+                    // half of the time the whole story is played out: the forger is removed, the
+                    // impersonated user is added (and may be given the forger's leaf), and only
+                    // then does the forged event reach the others
+                    let admins: Vec<usize> = members.iter().copied().filter(|m| *m != node && w.is_admin(*m, g) && w.is_active_member(*m, g) && !w.has_pending_commit(*m, g)).collect();
+                    if !admins.is_empty() && gn.rng().chance(1, 2) {
+                        let a = admins[gn.rng().below(admins.len() as u64) as usize];
+                        let others: Vec<usize> = members.iter().copied().filter(|m| *m != node && *m != a).collect();
+                        let first = gn.mk(w, node, 0, Op::Hostile(HostileOp::ForgedRumor { g, mode, victim, victim_msg: None, tag: seed % 1000 }));
+                        let forged = EvRef(first.id, 0);
+                        let rm = gn.mk(w, a, 1, Op::RemoveMembers { g, who: vec![node] });
+                        let c1 = EvRef(rm.id, 0);
+                        gn.queue.push_back(rm);
+                        let st = gn.mk(w, a, 0, Op::MergePending { g });
+                        gn.queue.push_back(st);
+                        for x in &others {
+                            let st = gn.mk(w, *x, 0, Op::Deliver { ev: c1 });
+                            gn.queue.push_back(st);
+                        }
+                        let add = gn.mk(w, a, 1, Op::AddMembers { g, who: vec![victim] });
+                        let c2 = EvRef(add.id, 0);
+                        gn.queue.push_back(add);
+                        let st = gn.mk(w, a, 0, Op::MergePending { g });
+                        gn.queue.push_back(st);
+                        for x in &others {
+                            let st = gn.mk(w, *x, 0, Op::Deliver { ev: c2 });
+                            gn.queue.push_back(st);
+                        }
+                        for x in others.iter().chain(std::iter::once(&a)) {
+                            let st = gn.mk(w, *x, 0, Op::Deliver { ev: forged });
+                            gn.queue.push_back(st);
+                        }
+                        gn.hold_until.insert(forged, gn.emitted + 8 + 3 * others.len());
+                        w.probe("leaf_inheritance_story_scripted");
+                        return Some(first);
+                    }
+                }
+            }
             HostileOp::ForgedRumor { g, mode, victim, victim_msg: vm, tag: seed % 1000 }
         }
         "h_rewrap" => {
